@@ -442,6 +442,8 @@ func vdSchemas(trees []string) []string {
 			`{"$defs":{"i":{"type":"integer"}},"properties":{"p":{"$ref":"#/$defs/i","default":%s}}}`,
 			`{"$defs":{"i":{"type":"integer","default":%s}},"properties":{"p":{"$ref":"#/$defs/i"}}}`,
 			`{"$defs":{"o":{"properties":{"a":{"type":"integer"}}}},"$ref":"#/$defs/o","default":%s}`,
+			`{"$defs":{"num":{"type":["integer","string","object"]}},"properties":{"p":{"$ref":"#/$defs/num","maximum":0,"maxLength":0,"maxProperties":0,"default":%s}}}`,
+			`{"$defs":{"num":{"type":["integer","string","object"]}},"$ref":"#/$defs/num","not":{"type":"integer"},"default":%s}`,
 			`{"if":{"type":"object"},"then":{"type":"integer","default":%s}}`,
 			`{"if":true,"else":{"type":"integer","default":%s}}`,
 			`{"dependentSchemas":{"a":{"type":"integer","default":%s}}}`,
